@@ -580,6 +580,9 @@ func (e *Engine) parseOne(r Rope) (n *Node, rest Rope, err string) {
 		break
 	}
 	if len(buf) == 0 {
+		if _, ok := r[0].(SegSym); ok {
+			return e.parseRaw(r, 0)
+		}
 		e.unsupported(fmt.Sprintf("decode of rope starting with %T", r[0]))
 	}
 	node, used, perr := e.parseConcrete(buf, 0)
@@ -588,12 +591,108 @@ func (e *Engine) parseOne(r Rope) (n *Node, rest Rope, err string) {
 			if bl, ok := r[k].(SegBlob); ok && strings.HasPrefix(bl.arr.name, "blob:garbage") {
 				return nil, nil, "syntax error (literal prefix followed by unstructured input)"
 			}
-			e.unsupported("decode of mixed literal/symbolic rope")
+			return e.parseRaw(r, 0)
 		}
 		return nil, nil, perr
 	}
 	restR := ropeLit(buf[used:])
 	return node, ropeConcat(restR, r[k:]), ""
+}
+
+// parseRaw: byte-level scan of a rope whose head bytes are literal or symbolic byte terms
+// (buffers the code under test wrote into). Forks on the major type and the head form.
+func (e *Engine) parseRaw(r Rope, depth int) (*Node, Rope, string) {
+	tt := e.tt
+	if depth > 8 {
+		e.unsupported("raw decode nested too deep")
+	}
+	total := e.ropeLen(r)
+	if !e.branch(tt.Cmp("bvugt", total, e.c64(0))) {
+		return nil, nil, "unexpected EOF"
+	}
+	b0 := e.ropeIndex(r, e.c64(0))
+	mj, ok := e.concretizeAmong(tt.Extract(b0, 7, 5), []uint64{0, 1, 2, 3, 4, 5, 6, 7})
+	if !ok {
+		e.unsupported("raw decode: major type not concretizable")
+	}
+	major := int(mj)
+	ai := tt.Extract(b0, 4, 0)
+	var arg *Term
+	w := 0
+	if e.branch(tt.Cmp("bvult", ai, tt.BVu(24, 5))) {
+		arg = tt.ZExt(ai, 64)
+	} else {
+		aiv, ok := e.concretizeAmong(ai, []uint64{24, 25, 26, 27, 28, 29, 30, 31})
+		if !ok {
+			e.unsupported("raw decode: additional information not concretizable")
+		}
+		switch {
+		case aiv <= 27:
+			w = 1 << (aiv - 24)
+			if !e.branch(tt.Cmp("bvuge", total, e.c64(uint64(1+w)))) {
+				return nil, nil, "unexpected EOF"
+			}
+			var parts *Term
+			for i := 1; i <= w; i++ {
+				b := e.ropeIndex(r, e.c64(uint64(i)))
+				if parts == nil {
+					parts = b
+				} else {
+					parts = tt.Concat(parts, b)
+				}
+			}
+			arg = tt.ZExt(parts, 64)
+		case aiv == 31:
+			e.unsupported("raw decode of an indefinite-length head")
+		default:
+			return nil, nil, "reserved additional information"
+		}
+	}
+	n := e.newNode(major, arg)
+	n.wvar = tt.BVu(uint64(w), 8)
+	pos := e.c64(uint64(1 + w))
+	switch major {
+	case 0, 1:
+		return n, e.ropeSlice(r, pos, total), ""
+	case 7:
+		if w == 1 && e.branch(tt.Cmp("bvult", arg, e.c64(32))) {
+			return nil, nil, "invalid simple value"
+		}
+		return n, e.ropeSlice(r, pos, total), ""
+	case 2, 3:
+		if !e.branch(tt.Cmp("bvule", arg, tt.Bin("bvsub", total, pos))) {
+			return nil, nil, "unexpected EOF"
+		}
+		end := tt.Bin("bvadd", pos, arg)
+		n.content = e.ropeSlice(r, pos, end)
+		return n, e.ropeSlice(r, end, total), ""
+	}
+	// containers: the count must be small and concrete
+	count := uint64(1)
+	if major != 6 {
+		cnt, ok := e.concretize(arg, 6)
+		if !ok {
+			e.unsupported("raw decode: container count not concretizable")
+		}
+		n.arg = e.c64(cnt)
+		count = cnt
+		if major == 5 {
+			count = 2 * cnt
+		}
+	}
+	rest := e.ropeSlice(r, pos, total)
+	for i := uint64(0); i < count; i++ {
+		k, kr, err := e.parseOne(rest)
+		if err != "" {
+			if err == "EOF" {
+				err = "unexpected EOF"
+			}
+			return nil, nil, err
+		}
+		n.kids = append(n.kids, k)
+		rest = kr
+	}
+	return n, rest, ""
 }
 
 func sameSeg(a, b Seg) bool {
